@@ -20,30 +20,6 @@ CHECKS = {
         note="Trusted: Coq kernel+vm_compute, hand-written model Migrate/Migrate.v, harness and driver; atomicity of the enclosing "
              "walletdb.Update is C11's subject (modelled here as restore-on-error). No axioms (Print Assumptions: closed).",
     ),
-    "C01": dict(category="exploration",
-        text="INTERIM: differential exploration. The store model (coq/Tx/Store.v, bucket for bucket), the ledger spec and the refinement "
-             "invariant are in place and the composition theorem C01_from_refinement is closed; the per-event preservation lemmas are "
-             "being proved (coq/Tx/PROOFS.md). Until they are all closed the deciding leg is: real wtxmgr vs Coq model vs Coq ledger spec "
-             "after every event of generated chain-consistent histories (validated by the Coq predicate).",
-        note="Trusted: generator (node simulator) reaches the relevant histories; Coq evaluation by vm_compute; bbolt.",
-        technique="differential correspondence against an executable Coq model and Coq ledger specification; refinement proof in progress"),
-    "C02": dict(category="exploration",
-        text="INTERIM: as C01, on pairs of histories with equal final facts (generated history vs direct construction), plus the corpus "
-             "replay of the repaired coinbase-descendant defect; composition theorem C02_from_refinement closed, refinement lemmas in progress.",
-        note="Trusted: as C01.",
-        technique="differential correspondence against an executable Coq model and Coq ledger specification; refinement proof in progress"),
-    "C12": dict(category="exploration",
-        text="INTERIM: per-operation lease theorems (other id rejected for lease and release, same id extends, owner release frees, "
-             "exact expiry instant, unknown output rejected, leased output absent from the spendable set) are closed for every store state; "
-             "the history-level clauses (excluded from balance, confirmed spend removes the lease) wait for the refinement lemmas and are "
-             "decided by the differential run with a mock clock on both sides of the expiry instant and across reopen.",
-        note="Trusted: as C01; clock injected through the verif hook wtxmgr.VerifSetClock.",
-        technique="Coq theorems on the lease operations of the model + differential correspondence with mock clock; refinement proof in progress"),
-    "C13": dict(category="exploration",
-        text="INTERIM: as C01 with TxDetails/UniqueTxDetails/RangeTransactions for every universe tx after every event vs model and vs "
-             "spec_details; composition theorem closed, refinement lemmas in progress.",
-        note="Trusted: as C01.",
-        technique="differential correspondence against an executable Coq model and Coq ledger specification; refinement proof in progress"),
     "C18": dict(
         text="Model Queue/Queue.v: labelled transition system transcribed from chain/queue.go's worker (select A over chanIn/quit with an inner "
              "non-blocking select chanOut/quit/default->PushBack; select B over chanIn->PushBack / chanOut<-Front;Remove / quit), parametric in both "
@@ -69,4 +45,52 @@ CHECKS = {
              "the HMAC key block; idealisations: seal binds key/nonce/message, no near or prefix ciphertext opens, kdf/hash injective) - all satisfied "
              "together by a toy instance (C17_laws_satisfiable); exercised, not proved. Nonce freshness is a hypothesis. Known finding "
              "hmac_equivalent_passphrase_accepted (inherent to PBKDF2-HMAC, no compatible fix). Observation: a stored r=0 or p=0 makes DeriveKey panic. No axioms."),
+    "C01": dict(
+        text="Theorem C01_balance_and_spendable_equal_ledger: for every universe, every chain-consistent history, every prefix, every minconf >= 0 and every "
+             "sync height >= the highest confirmed block, the model's Balance equals spec_balance (the property's sum over credited, unspent-by-any-known-tx, "
+             "unleased, sufficiently confirmed, mature outputs) and UnspentOutputs is a permutation of spec_utxos (amount, block, coinbase flag). Proved by "
+             "the refinement invariant Inv (Tx/Inv.v) preserved by every event - Seen, Confirm (incl. double-spend removal), Disconnect (rollback incl. the "
+             "amt=0 branch and coinbase descendants), Abandon, lease events - about 7000 lines of Coq, unbounded in history length and graph shape; plus "
+             "C01_model_total_on_consistent_histories (the fuelled recursion never runs out). Tie to the code: node-simulator histories on the real "
+             "wtxmgr over bbolt, compared after every event with the model AND with the ledger spec for 24 (minconf, sync) pairs, spendable set, watch set, "
+             "unmined set, lease list.",
+        note="Model coq/Tx/Store.v transcribes wtxmgr bucket for bucket (10 buckets, InsertTx/AddCredit/Rollback/removeConflict/Balance/fetchCredits/leases/TxDetails/RangeTransactions); hypotheses: wf_universe (ids, positive amounts, duplicate-free inputs, inputs name existing outputs, acyclic by rank) and chain_consistent (decidable, Tx/Hist.v: what a validating node can emit - re-deliveries and unconfirmed conflicts allowed). Trusted: Coq kernel+vm_compute, the hand-written model (tied by the differential run after EVERY event), generator, bbolt. Integer wrap-around outside the model (amounts < 2^53, heights < 2^20 generated). Late discovery of credits not generated. No axioms (Print Assumptions closed)."),
+    "C02": dict(
+        text="Theorems C02_disconnect_semantics and C02_confirm_semantics state the ledger steps in the property's words (non-coinbase transactions of "
+             "detached blocks become unconfirmed again, coinbase transactions and everything depending on them disappear; confirming removes exactly the "
+             "conflicting unconfirmed transactions and their unconfirmed descendants, the rest stays) via the declarative reachability depends_on; "
+             "C02_store_follows_ledger_steps is the refinement; C02_same_facts_same_observables: any two chain-consistent histories with equal final facts "
+             "report equal balances, spendable sets and TxDetails - unbounded. Tie to the code: pairs (generated history, direct construction of its final "
+             "facts) on the real store, plus the corpus replay of the repaired coinbase-descendant defect (fix 8f53bc5).",
+        note="Model coq/Tx/Store.v transcribes wtxmgr bucket for bucket (10 buckets, InsertTx/AddCredit/Rollback/removeConflict/Balance/fetchCredits/leases/TxDetails/RangeTransactions); hypotheses: wf_universe (ids, positive amounts, duplicate-free inputs, inputs name existing outputs, acyclic by rank) and chain_consistent (decidable, Tx/Hist.v: what a validating node can emit - re-deliveries and unconfirmed conflicts allowed). Trusted: Coq kernel+vm_compute, the hand-written model (tied by the differential run after EVERY event), generator, bbolt. Integer wrap-around outside the model (amounts < 2^53, heights < 2^20 generated). Late discovery of credits not generated. No axioms (Print Assumptions closed). The wallet-level handler wallet.disconnectBlock is covered by C15."),
+    "C12": dict(
+        text="Per-operation theorems valid in EVERY store state: leased output absent from the spendable set and from the balance, other id cannot lease "
+             "(ErrAlreadyLocked, state unchanged) or release (ErrUnlockNotAllowed, unchanged), same id extends (new expiry = trunc_sec(now+dur)), owner release "
+             "frees, available again exactly when now >= stored expiry (iff), unknown output rejected; history-level theorem C12_leases_follow_ledger: after "
+             "every prefix of every chain-consistent history with any interleaving of lease/release/clock/sweep/receipt/spend/confirmation/reorg events the "
+             "lease bucket, 'known output', balance and spendable set are the ledger's; C12_confirmed_spend_removes_lease. Tie to the code: histories with a "
+             "mock clock (hook VerifSetClock) advanced to just before/at/after the second-truncated expiry, three lease ids, unknown/spent outpoints, "
+             "DeleteExpiredLockedOutputs, close-and-reopen of the database file.",
+        note="Model coq/Tx/Store.v transcribes wtxmgr bucket for bucket (10 buckets, InsertTx/AddCredit/Rollback/removeConflict/Balance/fetchCredits/leases/TxDetails/RangeTransactions); hypotheses: wf_universe (ids, positive amounts, duplicate-free inputs, inputs name existing outputs, acyclic by rank) and chain_consistent (decidable, Tx/Hist.v: what a validating node can emit - re-deliveries and unconfirmed conflicts allowed). Trusted: Coq kernel+vm_compute, the hand-written model (tied by the differential run after EVERY event), generator, bbolt. Integer wrap-around outside the model (amounts < 2^53, heights < 2^20 generated). Late discovery of credits not generated. No axioms (Print Assumptions closed). 'Leases survive restart' holds in the model because the lease bucket is database state (the store has no in-memory "
+             "part); it is exercised by the reopen runs. The expiry returned by LockOutput carries sub-second precision while the stored one is truncated to "
+             "seconds: theorems and comparison use the stored/listed expiry."),
+    "C13": dict(
+        text="Theorem C13_details_equal_ledger: after every prefix of every chain-consistent history, for every transaction id, TxDetails reports it iff the "
+             "ledger knows it, under its current block or as unconfirmed, with exactly the credited outputs (amount, change flag, spent flag = some known "
+             "confirmed or unconfirmed transaction spends it) and one debit with the credit's amount per input spending a wallet credit; UniqueTxDetails at "
+             "its current incidence agrees; the unconfirmed hash list is the ledger's unconfirmed set. Tie to the code: TxDetails/UniqueTxDetails for every "
+             "universe tx and RangeTransactions over nine (begin,end) pairs in both directions after every event, vs model and vs spec_details.",
+        note="PARTIAL: range iteration (each known transaction exactly once under its current block, forwards and backwards) is in the model and in the "
+             "differential run but not yet a closed theorem. Model coq/Tx/Store.v transcribes wtxmgr bucket for bucket (10 buckets, InsertTx/AddCredit/Rollback/removeConflict/Balance/fetchCredits/leases/TxDetails/RangeTransactions); hypotheses: wf_universe (ids, positive amounts, duplicate-free inputs, inputs name existing outputs, acyclic by rank) and chain_consistent (decidable, Tx/Hist.v: what a validating node can emit - re-deliveries and unconfirmed conflicts allowed). Trusted: Coq kernel+vm_compute, the hand-written model (tied by the differential run after EVERY event), generator, bbolt. Integer wrap-around outside the model (amounts < 2^53, heights < 2^20 generated). Late discovery of credits not generated. No axioms (Print Assumptions closed)."),
+    "C14": dict(
+        text="Theorem C14_dependency_sort (unbounded, Kahn invariant): for every finite set of transactions with distinct ids whose in-set spend relation is "
+             "acyclic (rank function; C14_acyclic_iff_no_cycle proves this equivalent to 'no cycle') and every pair of map iteration orders (any permutation "
+             "for makeGraph, any permutation for graphRoots), the model of wtxmgr/kahnsort.go terminates within its fuel, returns a permutation of the set and "
+             "places every transaction after every member it spends from (parallel edges with multiplicity as in the code, the ineffective duplicate-edge test "
+             "and the len(roots)==len(txs) shortcut included). C14_admissible_is_the_property / C14_model_outputs_admissible tie the executable acceptance test "
+             "to the theorem. Tie to the code: all 760 DAGs on <=4 nodes with 0/1/2 parallel edges plus random DAGs of up to 40 real wire.MsgTx run through "
+             "wtxmgr.DependencySort 20x each and through Store.UnminedTxs on a real store; every returned order checked in Coq and by a direct Go oracle.",
+        note="All clauses proved for the model. Go map order is not observable, so the tie compares property-relevant behaviour only (each implementation "
+             "output must be an admissible Kahn run); exact FIFO reproduction is a diagnostic, never a failure (a LIFO work list does not alarm). "
+             "Assumed: map key = hash of its transaction. No axioms (Print Assumptions closed x5; coqchk: none)."),
 }
